@@ -23,6 +23,7 @@ class Doc:
         self.specials = []  # (offset, expected character)
         self.unk = []       # (name, in_maths) in source order
         self.accented = []  # words whose first letter gets an accent
+        self.defined = set()  # macros defined in the body
 
     def push_flow(self):
         self.nflows += 1
@@ -81,7 +82,8 @@ def construct(d, rng, depth, ctx):
                     'index', 'LTadd', 'LTskip', 'framebox', 'phantom',
                     'accentverb', 'newline', 'opformula', 'umacro0', 'gls',
                     'mathunk', 'specialrun', 'defmac', 'optmac', 'hash',
-                    'texorpdf', 'nonumber', 'textinmath', 'xspace', 'cites'])
+                    'texorpdf', 'nonumber', 'textinmath', 'xspace', 'cites',
+                    'twofoot', 'mlarg', 'mlarg'])
     d.kind(k)
     if k == 'textbf':
         d.add('\\textbf{')
@@ -246,6 +248,25 @@ def construct(d, rng, depth, ctx):
     elif k == 'xspace':
         d.add('\\xspace' + rng.choice([' ', '. ', ', ', '{} ', '\\footnotemark ']))
         d.word(rng)
+    elif k == 'twofoot' and 'nofoot' not in ctx:
+        # two detached flows from one macro body (same source position)
+        d.add(rng.choice(['\\utf', '\\utf{}', '\\utg{']))
+        if d.parts[-1].endswith('{'):
+            old = d.push_flow()
+            d.word(rng)
+            d.flow = old
+            d.add('}')
+        d.add(' ')
+        d.word(rng)
+    elif k == 'mlarg':
+        # argument over several lines, the closing brace on a line of its own
+        d.add(rng.choice(['\\um{', '\\LTadd{', '\\framebox{', '\\textbf{', '\\umm{',
+                          '\\unkd{']))
+        if 'unkd' in d.parts[-1]:
+            d.unk.append(('\\unkd', False))
+        d.add(rng.choice(['\n', '\n  ', ' ']))
+        sentence(d, rng, depth - 1, ctx)
+        d.add(rng.choice(['\n}', '\n  }', '\n}\n', ' %\n}']))
     elif k == 'cites':
         d.add(rng.choice(['\\parencite[see][p. 3]{k}', '\\footcite{k}', '\\cite*{k}',
                           '\\Cite[]{k}', '\\eqref{e}', '\\substack{a \\\\ b}']))
@@ -259,7 +280,7 @@ def block(d, rng, depth, ctx):
                     'display', 'table', 'select', 'otherlang', 'proof',
                     'verbatim_sp', 'comment_blank', 'label_eol', 'ltinput',
                     'strayend', 'envspace', 'removed', 'nested_items',
-                    'opequation', 'usepkg'])
+                    'opequation', 'usepkg', 'skip2', 'optbracket', 'latedef'])
     d.kind('block:' + k)
     if k == 'par':
         sentence(d, rng, depth, ctx)
@@ -296,6 +317,43 @@ def block(d, rng, depth, ctx):
         d.add(' $x$ {y}\n\\end{verbatim}')
     elif k == 'skip':
         d.add('%%% LT-SKIP-BEGIN\nsecret \\foo $\n%%% LT-SKIP-END\n')
+        d.word(rng)
+    elif k == 'latedef':
+        # used before its definition: unknown at the first use
+        nm = '\\ulate' + rng.choice('ab')
+        if nm not in d.defined:
+            d.unk.append((nm, False))
+            d.add(nm + rng.choice(['{}', ' ']))
+            d.word(rng)
+            d.add('\n\\newcommand{' + nm + '}{')
+            d.defined.add(nm)
+            d.word(rng)         # the body: shown at later uses only
+            w = d.words.pop()   # ... so it is no word of the document yet
+            d.word_flow.pop(w[0], None)
+            d.add('}\n')
+            d.word(rng)
+        else:
+            d.word(rng)
+    elif k == 'skip2':
+        # skip regions that end behind a comment line, or are empty
+        d.word(rng)
+        d.add('\n%%% LT-SKIP-BEGIN\n' + rng.choice(
+            ['secret \\foo $\n% inner\n', '', '% only a comment\n', 'secret\n  % c\n',
+             '% a\n% b\n']) + '%%% LT-SKIP-END\n')
+        d.word(rng)
+    elif k == 'optbracket':
+        # LaTeX ends an optional argument at the first ] outside braces
+        d.add(rng.choice(['\\section[Open [a,b)]{', '\\chapter[x [y]{',
+                          '\\caption[Half [0,1)]{']))
+        cap = 'caption' in d.parts[-1]
+        old = d.push_flow() if cap else None
+        sentence(d, rng, depth - 1, ctx | {'nofoot'})
+        if cap:
+            d.flow = old
+        d.add('}')
+        d.add(rng.choice(['\n', ' ']))
+        d.word(rng)
+        d.add(' (0,1] ')
         d.word(rng)
     elif k == 'figure':
         d.add('\\begin{figure}[h]\n\\includegraphics[width=3cm]{file.png}\n'
@@ -384,7 +442,9 @@ PREAMBLE = ('\\newcommand{\\um}[1]{#1}\n\\newcommand{\\umm}[1]{<#1>}\n'
             '\\newcommand{\\umo}[2][opt]{#2}\n\\newtheorem{thm}{Theorem}\n'
             '\\newcommand{\\ua}{UA}\\newcommand{\\ub}{\\verb|ub body text|}'
             '\\newcommand{\\uc}{U \\textbf{c}}\n'
-            '\\newcommand{\\umd}[2][dflt]{<#1|#2>}\n')
+            '\\newcommand{\\umd}[2][dflt]{<#1|#2>}\n'
+            '\\newcommand{\\utf}{\\footnote{fa fb}\\footnote{fc}}'
+            '\\newcommand{\\utg}[1]{\\footnote{#1 fd}\\footnote{fe}}\n')
 
 GLSDEFS = ('\\gls@defglossaryentry{pp}%\n{%\nname={ppm},%\ntext={ppm},%\n'
            'plural={ppms},%\ndescription={parts per million}%\n}%\n'
